@@ -300,6 +300,10 @@ func FrozenWrites() int {
 	return 0
 }
 
+// Stubbed returns the recorded argument lists of a function the VM replaced by a
+// recording stub (natively: nothing is stubbed, so nothing is recorded).
+func Stubbed(name string) []interface{} { return nil }
+
 // MapOrder asks the VM to explore every iteration order of the maps ranged over from now on.
 func MapOrder(on bool) {}
 
